@@ -1,0 +1,22 @@
+//go:build verif
+// +build verif
+
+// Contracts for deductive verification (govc, /verif). Comment-only file.
+
+package crypto
+
+// A vote signature entry is valid for msg under client cc iff its public key
+// decodes, the key hashes to the stated address and the ECDSA signature over
+// msg verifies under that key. Getter semantics: a nil entry reads as zero values.
+//
+//@ macro qcsPK(sig)   = sig == nil ? "" : sig.PublicKey
+//@ macro qcsAddr(sig) = sig == nil ? "" : sig.Address
+//@ macro qcsSign(sig) = sig == nil ? nil : sig.Sign
+//@ macro voteSigValid(cc, sig, msg) = cc.GetEcdsaPublicKeyFromJsonStr#1(qcsPK(sig)) == nil
+//@     && cc.GetAddressFromPublicKey#1(cc.GetEcdsaPublicKeyFromJsonStr(qcsPK(sig))) == nil
+//@     && cc.GetAddressFromPublicKey(cc.GetEcdsaPublicKeyFromJsonStr(qcsPK(sig))) == qcsAddr(sig)
+//@     && cc.VerifyECDSA(cc.GetEcdsaPublicKeyFromJsonStr(qcsPK(sig)), qcsSign(sig), msg)
+
+//@ func CBFTCrypto.VerifyVoteMsgSign
+//@   property C14
+//@   ensures sig_binds_key_address_msg: result0 ==> voteSigValid(c.CryptoClient, sig, msg)
